@@ -140,7 +140,7 @@ def run(ctx, prop, known_sig=None):
     ctx.notes["exhaustive_part"] = "all strings over {CR,LF,'.','x'} up to length %d; every read-split up to length %d" % (maxlen, splitmax)
     # report
     for kind, msg, data, ch in viols:
-        d = os.path.join(vlib.VERIF, "replays", pid)
+        d = os.path.join(vlib.OUT, "replays", pid)
         os.makedirs(d, exist_ok=True)
         f = os.path.join(d, hashlib.sha1(data + repr(ch).encode()).hexdigest()[:16] + ".bin")
         open(f, "wb").write(data)
